@@ -196,6 +196,100 @@ fn check_ont(st: &mut Stats, prop: &str, line: &Value, conc: &Concretisation, pa
     }
 }
 
+/// Growth beyond the listed properties (spec/HpoSetOps.tla): path queries (any shortest path is
+/// allowed) and HpoSet operations.  Mismatches are reported under the pseudo property "EXTRA".
+fn check_extras(st: &mut Stats, line: &Value, conc: &Concretisation, ont: &Ontology) {
+    use hpo::annotations::AnnotationId;
+    use hpo::term::HpoGroup;
+    use hpo::HpoSet;
+    let mut d: Vec<String> = vec![];
+    let cv = |v: &Value| -> Vec<u32> { u32_list(v).into_iter().map(|m| conc.get(m)).collect() };
+    for p in arr(&line["paths"]) {
+        let (a, b) = (conc.get(as_u32(&p["a"])), conc.get(as_u32(&p["b"])));
+        let (Some(ta), Some(tb)) = (ont.hpo(a), ont.hpo(b)) else { continue };
+        st.bump("extra_path_queries", 1);
+        let updist = as_i64(&p["updist"]);
+        let got = ta.distance_to_ancestor(&tb).map(|x| x as i64).unwrap_or(-1);
+        if got != updist {
+            d.push(format!("distance_to_ancestor({a},{b}) = {got}, expected {updist}"));
+        }
+        let allowed: Vec<Vec<u32>> = arr(&p["uppaths"]).iter().map(cv).collect();
+        match ta.path_to_ancestor(&tb) {
+            Some(path) => {
+                let path: Vec<u32> = path.iter().map(|x| x.as_u32()).collect();
+                if !allowed.contains(&path) {
+                    d.push(format!("path_to_ancestor({a},{b}) = {:?}, allowed shortest paths {:?}", path, allowed));
+                }
+            }
+            None => {
+                if !allowed.is_empty() {
+                    d.push(format!("path_to_ancestor({a},{b}) = None, allowed {:?}", allowed));
+                }
+            }
+        }
+        let dist = as_i64(&p["dist"]);
+        let got = ta.distance_to_term(&tb).map(|x| x as i64).unwrap_or(-1);
+        if got != dist {
+            d.push(format!("distance_to_term({a},{b}) = {got}, expected {dist}"));
+        }
+        let allowed: Vec<Vec<u32>> = arr(&p["paths"]).iter().map(cv).collect();
+        match catch(|| ta.path_to_term(&tb)) {
+            Ok(Some(path)) => {
+                let path: Vec<u32> = path.iter().map(|x| x.as_u32()).collect();
+                if !allowed.contains(&path) {
+                    d.push(format!("path_to_term({a},{b}) = {:?}, allowed {:?}", path, allowed));
+                }
+            }
+            Ok(None) => {
+                if !allowed.is_empty() {
+                    d.push(format!("path_to_term({a},{b}) = None, allowed {:?}", allowed));
+                }
+            }
+            Err(e) => d.push(format!("path_to_term({a},{b}) panicked: {e}")),
+        }
+        let ids = |g: HpoGroup| -> Vec<u32> { g.iter().map(|x| x.as_u32()).collect() };
+        if ids(ta.common_ancestor_ids(&tb)) != cv(&p["common"]) {
+            d.push(format!("common_ancestor_ids({a},{b}) = {:?}, expected {:?}", ids(ta.common_ancestor_ids(&tb)), cv(&p["common"])));
+        }
+        if ids(ta.all_common_ancestor_ids(&tb)) != cv(&p["commonself"]) {
+            d.push(format!("all_common_ancestor_ids({a},{b}) = {:?}, expected {:?}", ids(ta.all_common_ancestor_ids(&tb)), cv(&p["commonself"])));
+        }
+        if ids(ta.union_ancestor_ids(&tb)) != cv(&p["union"]) || ids(ta.all_union_ancestor_ids(&tb)) != cv(&p["union"]) {
+            d.push(format!("union_ancestor_ids({a},{b}) = {:?}, expected {:?}", ids(ta.union_ancestor_ids(&tb)), cv(&p["union"])));
+        }
+    }
+    for s in arr(&line["sets"]) {
+        st.bump("extra_set_queries", 1);
+        let mut g = HpoGroup::new();
+        for id in cv(&s["set"]) {
+            g.insert(id);
+        }
+        let set = HpoSet::new(ont, g);
+        let child: Vec<u32> = set.child_nodes().iter().map(|t| t.id().as_u32()).collect();
+        if child != cv(&s["child"]) {
+            d.push(format!("child_nodes({:?}) = {:?}, expected {:?}", cv(&s["set"]), child, cv(&s["child"])));
+        }
+        let want = |k: &str| -> std::collections::BTreeSet<u32> { u32_list(&s[k]).into_iter().collect() };
+        let g: std::collections::BTreeSet<u32> = set.gene_ids().iter().map(|x| x.as_u32()).collect();
+        let o: std::collections::BTreeSet<u32> = set.omim_disease_ids().iter().map(|x| x.as_u32()).collect();
+        let r: std::collections::BTreeSet<u32> = set.orpha_disease_ids().iter().map(|x| x.as_u32()).collect();
+        if g != want("gene") || o != want("omim") || r != want("orpha") {
+            d.push(format!("HpoSet{:?}: gene/omim/orpha ids {:?}/{:?}/{:?}, expected {:?}/{:?}/{:?}", cv(&s["set"]), g, o, r, want("gene"), want("omim"), want("orpha")));
+        }
+        if let Ok(ic) = set.information_content() {
+            let wg = ic_expected(s["icgene"][0].as_u64().unwrap() as usize, s["icgene"][1].as_u64().unwrap() as usize);
+            let wo = ic_expected(s["icomim"][0].as_u64().unwrap() as usize, s["icomim"][1].as_u64().unwrap() as usize);
+            if !close_f32(ic.gene(), wg, 1e-5, 1e-6) || !close_f32(ic.omim_disease(), wo, 1e-5, 1e-6) {
+                d.push(format!("HpoSet{:?}.information_content() = ({}, {}), expected ({wg}, {wo})", cv(&s["set"]), ic.gene(), ic.omim_disease()));
+            }
+        }
+    }
+    if !d.is_empty() && st.violations.iter().filter(|v| v.property == "EXTRA").count() < 3 {
+        d.truncate(8);
+        st.violations.push(Violation { property: "EXTRA".into(), what: d[0].clone(), replay: json!({"cmd": "replay-sim", "property": "EXTRA", "line": line, "conc": conc.to_json(), "diffs": d}) });
+    }
+}
+
 pub fn replay_line(st: &mut Stats, prop: &str, seed: u64, idx: usize, line: &Value, conc_filter: Option<&str>) {
     let mut model_ids = u32_list(&line["arena"]);
     model_ids.sort_unstable();
@@ -237,7 +331,12 @@ pub fn replay_line(st: &mut Stats, prop: &str, seed: u64, idx: usize, line: &Val
             })
             .collect();
         match via_builder(&scn, EdgeOrder::AsGiven, false, false) {
-            Ok(ont) => check_ont(st, prop, line, &conc, "builder", &ont, &exp, &pairs),
+            Ok(ont) => {
+                check_ont(st, prop, line, &conc, "builder", &ont, &exp, &pairs);
+                if !arr(&line["paths"]).is_empty() {
+                    check_extras(st, line, &conc, &ont);
+                }
+            }
             Err(e) => st.violations.push(Violation { property: prop.into(), what: format!("builder: {e}"), replay: json!({"cmd":"replay-sim","property":prop,"line":line,"conc":conc.to_json(),"diffs":[e]}) }),
         }
         if has_roots(&scn) {
